@@ -5,6 +5,9 @@ CONSTANTS
     MaxClock = 6
     Design = "random"
     Vias = {"gen", "burst", "par", "upload"}
+    Stations = {"minted", "assembled", "arrived", "stored", "presign"}
+    Encs = {"none", "zstd", "gzip"}
+    Shared = {}
     Mode = "tree"
     Depth = 24
 CHECK_DEADLOCK FALSE
